@@ -68,7 +68,7 @@ func streamWF(c *Case) *WF {
 		} else {
 			w.Nodes[prod].Outs = append(w.Nodes[prod].Outs, o1)
 		}
-		if t.Choose(simrt.StGen, 3, 0) == 1 {
+		if t.Choose(simrt.StGen, 2, 0) == 1 {
 			// ... and a second ordinary one
 			w.Nodes[prod].Outs = append(w.Nodes[prod].Outs, OutSpec{Name: "o2", Pattern: "{i:a}.prod.o2"})
 		}
